@@ -174,4 +174,74 @@ theorem run_prefix (C : GBConf) (B₁ B₂ : List Msg) :
   simp only [gbRun, gbFold_append, List.append_assoc]
   exact ⟨_, rfl⟩
 
+/-! ## The full statement -/
+
+/-- the full-strength statement of the property, for a given `watermarkTriggerKey.Less` -/
+def Statement (wl : WKey → WKey → Bool) : Prop :=
+  -- COUNTING n: after every n-th record for the key, and only then
+  (∀ (n : Nat), 0 < n → ∀ (es : List TEv) (k' : Key),
+    let fired := (((Leaf.counting n [] false []).drive wl es).stepEv wl (.key k')).1
+    (∀ k ∈ fired, keq k k' = true) ∧ fired.length = if (occ k' es + 1) % n = 0 then 1 else 0) ∧
+  -- end of stream: every remaining key once (every primitive trigger; ON END OF STREAM: nothing before)
+  (∀ (l₀ : Leaf), l₀.isInit → ∀ es : List TEv,
+    let l := l₀.drive wl es
+    ((l.endOfStream.poll wl).1.Pairwise fun a b => keq a b = false) ∧
+    ∀ k, (l.endOfStream.poll wl).1.any (keq k) = l.pend wl k) ∧
+  (∀ (es : List TEv) (e : TEv), (((Leaf.eos [] false).drive wl es).stepEv wl e).1 = []) ∧
+  -- ON WATERMARK: once W has been forwarded the output holds the current result of every key at or below W
+  (∀ (C : GBConf) (nk : Nat), KeyLen C nk → ∀ idx, C.cfg.hasWm idx = true → ∀ (B₁ : List Msg) (w : Int),
+    (∃ o, (gbFold wl C (gbInit C) (B₁ ++ [.wm w])).2 = o ++ [.wm w]) ∧
+    ∀ row, (timeAt idx (row.take nk)).ns ≤ w →
+      net (recs (gbFold wl C (gbInit C) (B₁ ++ [.wm w])).2) row = tableOf C nk (aggsAfter C (recs B₁)) row) ∧
+  -- … and no key beyond W has been emitted (ON WATERMARK alone)
+  (∀ (C : GBConf) (nk : Nat), KeyLen C nk → ∀ idx, C.cfg.onlyWm idx = true → ∀ B : List Msg,
+    ∀ r ∈ recs (gbFold wl C (gbInit C) B).2, (timeAt idx (r.vals.take nk)).ns ≤ (wms B).foldl max zeroNs)
+
+/-- **C17, full strength, on the current tree.** -/
+theorem C17_full : Statement wlessFixed :=
+  ⟨counting_fires, eos_once, eos_trigger_silent, watermark_complete, no_early⟩
+
+/-! ## Non-vacuity, and the refutation of the code as shipped -/
+
+def ka : Key := [.time 1000 0, .int 0]
+def kb : Key := [.time 1000 101, .int 1]
+def kc : Key := [.time 2000 0, .int 0]
+
+/-- COUNTING 2: the second record of a key fires it, the first and third do not; other keys do not interfere -/
+example : (((Leaf.counting 2 [] false []).drive wl [.key ka, .key kb]).stepEv wl (.key ka)).1 = [ka] := by rfl
+example : (((Leaf.counting 2 [] false []).drive wl [.key kb]).stepEv wl (.key ka)).1 = [] := by decide
+example : (((Leaf.counting 2 [] false []).drive wl [.key ka, .key ka, .wm 5]).stepEv wl (.key ka)).1 = [] := by decide
+/-- ON WATERMARK: both keys of instant 1000 fire at watermark 1000, the key of instant 2000 does not -/
+example : (((Leaf.watermark 0 [] false zeroNs).drive wl [.key ka, .key kc, .key kb]).stepEv wl (.wm 1000)).1 = [ka, kb] := by
+  rfl
+/-- end of stream returns what is left, once -/
+example : (((Leaf.watermark 0 [] false zeroNs).drive wl [.key ka, .key kc, .key ka, .wm 1500]).endOfStream.poll wl).1 = [kc] := by
+  rfl
+
+/-- GROUP BY (column 0, column 1), count(column 2) TRIGGER ON WATERMARK -/
+def exConf : GBConf where
+  keyOf := fun v => [v.getD 0 .null, v.getD 1 .null]
+  aggs := [⟨aggCount, fun v => v.getD 2 .null⟩]
+  ket := some 0
+  cfg := .watermark 0
+  recOk := fun v => decide (3 ≤ v.length)
+
+def wB : List Msg :=
+  [.data ⟨[.time 1000 0, .int 0, .int 1], false, some 1000⟩,
+   .data ⟨[.time 1000 101, .int 1, .int 1], false, some 1000⟩]
+def wRow : Row := [.time 1000 0, .int 0, .int 1]
+
+/-- two keys with one instant in two locations, then watermark 1000: the current code has emitted both rows
+    when it forwards the watermark, the code as shipped has lost the first key -/
+example : net (recs (gbFold wlessFixed exConf (gbInit exConf) (wB ++ [.wm 1000])).2) wRow = 1 := by decide
+theorem raw_incomplete : net (recs (gbFold wlessRaw exConf (gbInit exConf) (wB ++ [.wm 1000])).2) wRow = 0 := by decide
+
+/-- **the code before the repair violates C17** (the watermark is forwarded without the result of a key at or below it) -/
+theorem C17_refuted_raw : ¬ Statement wlessRaw := by
+  intro h
+  have h4 := h.2.2.2.1 exConf 2 (fun _ => rfl) 0 rfl wB 1000
+  have := h4.2 wRow (by decide)
+  rw [raw_incomplete] at this
+  exact absurd this (by decide)
+
 end Octo.C17
